@@ -71,14 +71,21 @@ Lemma edge_core :
   edge g a b && negb (mem a guards) && negb (mem b guards) && negb (mem_edge (a, b) D).
 Proof. intros. unfold core. rewrite edge_remove_edges, edge_remove_nodes. reflexivity. Qed.
 
-Lemma used_app : forall fs p q, used fs (p ++ q) = used fs p + used fs q.
-Proof.
-  intros fs p q. induction p as [|a p IH]; cbn [app used fold_right]; [lia|].
-  unfold used in IH. rewrite IH. lia.
-Qed.
+Lemma walk_cons2 : forall g a b t, walk g (a :: b :: t) = edge g a b && walk g (b :: t).
+Proof. reflexivity. Qed.
 
 Lemma used_cons : forall fs a p, used fs (a :: p) = fs a + used fs p.
 Proof. reflexivity. Qed.
+
+Lemma used_nil : forall fs, used fs [] = 0.
+Proof. reflexivity. Qed.
+
+Lemma used_app : forall fs p q, used fs (p ++ q) = used fs p + used fs q.
+Proof.
+  intros fs p q. induction p as [|a p IH].
+  - cbn [app]. rewrite used_nil. lia.
+  - cbn [app]. rewrite !used_cons, IH. lia.
+Qed.
 
 Lemma used_nonneg : forall fs p, (forall n, 0 <= fs n) -> 0 <= used fs p.
 Proof.
@@ -201,15 +208,16 @@ Proof.
 Qed.
 
 (* with frames of at most M the cost of a path is at most M times its length *)
-Lemma wheight_le_M : forall fs M f n c h,
-  (forall x, 0 <= fs x <= M) ->
+Lemma wheight_le_M : forall fs M,
+  (forall x, 0 <= fs x <= M) -> forall f n c h,
   wheight g fs f n = Some c -> wheight g unit_cost f n = Some h -> 0 <= h /\ c <= M * h.
 Proof.
-  intros fs M f Hfs. revert f. intros f. induction f as [|f IH]; intros n c h Hc Hh; [discriminate|].
+  intros fs M Hfs f. induction f as [|f IH]; intros n c h Hc Hh; [discriminate|].
   rewrite wheight_S in Hc, Hh.
   destruct (agg fs f (succs g n)) as [t|] eqn:Ha; [|discriminate].
   destruct (agg unit_cost f (succs g n)) as [th|] eqn:Hu; [|discriminate].
-  injection Hc as <-. injection Hh as <-.
+  assert (Hc' : c = fs n + t) by congruence. assert (Hh' : h = 1 + th) by (unfold unit_cost in Hh; congruence).
+  subst c h. clear Hc Hh.
   assert (HM : 0 <= M) by (specialize (Hfs n); lia).
   assert (Hagg : 0 <= th /\ t <= M * th).
   { revert t th Ha Hu. generalize (succs g n) as l. induction l as [|a l IHl]; intros t th Ha Hu.
@@ -226,11 +234,28 @@ Proof.
       apply Z.max_lub.
       + apply Z.le_trans with (M * ha); [exact H2|]. apply Z.mul_le_mono_nonneg_l; lia.
       + apply Z.le_trans with (M * tlh); [exact H4|]. apply Z.mul_le_mono_nonneg_l; lia. }
-  destruct Hagg as [H1 H2]. unfold unit_cost. specialize (Hfs n). split; [lia|].
+  destruct Hagg as [H1 H2]. specialize (Hfs n). split; [lia|].
   replace (M * (1 + th)) with (M + M * th) by lia. lia.
 Qed.
 
 End WH.
+
+Lemma succs_in : forall g a b, mem b (succs g a) = true -> exists l, In (a, l) g /\ succs g a = l.
+Proof.
+  intros g a b. induction g as [|[k l] r IH]; cbn [succs]; intros He.
+  - discriminate.
+  - destruct (Nat.eqb k a) eqn:Hk.
+    + apply Nat.eqb_eq in Hk. subst. exists l. split; [left; reflexivity | reflexivity].
+    + destruct (IH He) as [l' [H1 H2]]. exists l'. split; [right; exact H1 | exact H2].
+Qed.
+
+Lemma closed_succ_key : forall g, closed g = true -> forall a b, edge g a b = true -> mem b (keys g) = true.
+Proof.
+  intros g Hclosed a b He. unfold closed in Hclosed. rewrite forallb_forall in Hclosed.
+  unfold edge in He. destruct (succs_in g a b He) as [l [Hin Hs]].
+  specialize (Hclosed (a, l) Hin). cbn [snd] in Hclosed.
+  rewrite forallb_forall in Hclosed. apply Hclosed. rewrite <- Hs. apply mem_true_iff. exact He.
+Qed.
 
 (* ------------------------------------------------------------------ acyclic graphs *)
 
@@ -257,21 +282,6 @@ Proof.
   unfold wh. rewrite Hc. reflexivity.
 Qed.
 
-Lemma closed_succ_key : forall a b, edge g a b = true -> mem b (keys g) = true.
-Proof.
-  intros a b He. unfold closed in Hclosed. rewrite forallb_forall in Hclosed.
-  unfold edge in He.
-  assert (Hin : exists l, In (a, l) g /\ succs g a = l /\ l <> []).
-  { clear Hclosed. induction g as [|[k l] r IH]; cbn [succs] in He |- *.
-    - discriminate.
-    - destruct (Nat.eqb k a) eqn:Hk.
-      + apply Nat.eqb_eq in Hk. subst. exists l. split; [left; reflexivity|]. split; [reflexivity|].
-        intros ->. discriminate.
-      + destruct (IH He) as [l' [H1 [H2 H3]]]. exists l'. split; [right; exact H1|]. split; assumption. }
-  destruct Hin as [l [Hin [Hs _]]]. specialize (Hclosed (a, l) Hin). cbn [snd] in Hclosed.
-  rewrite forallb_forall in Hclosed. apply Hclosed. rewrite <- Hs. apply mem_true_iff. exact He.
-Qed.
-
 Lemma wh_fs_le : forall n, mem n (keys g) = true -> fs n <= wh g fs n.
 Proof.
   intros n Hn. pose proof (acyclic_some n Hn) as H. unfold fuel_of in H.
@@ -290,7 +300,7 @@ Proof.
   rewrite wheight_S in H. destruct (agg g fs (length g) (succs g a)) as [t|] eqn:Hagg; [|discriminate].
   injection H as H. destruct (agg_some g fs _ _ _ Hagg) as [_ Hall].
   unfold edge in He. apply mem_true_iff in He. destruct (Hall b He) as [c [Hc Hle]].
-  apply wheight_mono in Hc. pose proof (acyclic_some b (closed_succ_key a b ltac:(unfold edge; apply mem_true_iff; exact He))) as Hb.
+  apply wheight_mono in Hc. pose proof (acyclic_some b (closed_succ_key g Hclosed a b ltac:(unfold edge; apply mem_true_iff; exact He))) as Hb.
   unfold fuel_of in Hb. rewrite Hc in Hb. injection Hb as Hb. lia.
 Qed.
 
@@ -327,15 +337,12 @@ Proof. intros h es. unfold keys, remove_edges. rewrite map_map. reflexivity. Qed
 Lemma mem_keys_remove_nodes : forall h rm n,
   mem n (keys (remove_nodes h rm)) = mem n (keys h) && negb (mem n rm).
 Proof.
-  intros h rm n. unfold keys, remove_nodes. rewrite map_map. cbn [fst].
-  induction h as [|[k l] r IH]; cbn [filter map fst mem existsb]; [reflexivity|].
-  destruct (negb (mem k rm)) eqn:Hk; cbn [map fst mem existsb].
-  - fold (mem n (map fst (filter (fun kl => negb (mem (fst kl) rm)) r))). rewrite IH.
-    fold (mem n (map fst r)). destruct (Nat.eqb n k) eqn:Hnk; cbn [orb]; [|reflexivity].
-    apply Nat.eqb_eq in Hnk. subst. rewrite Hk. reflexivity.
-  - fold (mem n (map fst (filter (fun kl => negb (mem (fst kl) rm)) r))). rewrite IH.
-    fold (mem n (map fst r)). destruct (Nat.eqb n k) eqn:Hnk; cbn [orb]; [|reflexivity].
-    apply Nat.eqb_eq in Hnk. subst. rewrite Hk. rewrite andb_false_r. reflexivity.
+  intros h rm n. apply Bool.eq_iff_eq_true. rewrite andb_true_iff, !mem_true_iff.
+  unfold keys, remove_nodes. rewrite map_map. cbn [fst]. rewrite !in_map_iff. split.
+  - intros [[k l] [Hk Hin]]. cbn [fst] in Hk. subst k. apply filter_In in Hin.
+    destruct Hin as [Hin Hf]. cbn [fst] in Hf. split; [|exact Hf]. exists (n, l). split; [reflexivity | exact Hin].
+  - intros [[[k l] [Hk Hin]] Hr]. cbn [fst] in Hk. subst k. exists (n, l). split; [reflexivity|].
+    apply filter_In. split; [exact Hin | exact Hr].
 Qed.
 
 Lemma key_core : forall n, mem n (keys g) = true -> mem n guards = false -> mem n (keys g') = true.
@@ -376,7 +383,7 @@ Proof.
     cbn [allkeys forallb] in Hk. apply andb_true_iff in Hk. destruct Hk as [Hka _].
     cbn [noguard forallb] in Hn. apply andb_true_iff in Hn. destruct Hn as [Hna _].
     apply negb_true_iff in Hna.
-    pose proof (wh_fs_le g' fs Hfs Hacyc a (key_core a Hka Hna)). lia.
+    pose proof (wh_fs_le g' fs Hacyc a (key_core a Hka Hna)). lia.
   - cbn [allkeys forallb] in Hk. apply andb_true_iff in Hk. destruct Hk as [Hka Hk].
     cbn [noguard forallb] in Hn. apply andb_true_iff in Hn. destruct Hn as [Hna Hn].
     cbn [walk] in Hw. apply andb_true_iff in Hw. destruct Hw as [Hab Hw].
@@ -387,11 +394,11 @@ Proof.
     assert (Hkb : mem b (keys g) = true).
     { cbn [allkeys forallb] in Hk. apply andb_true_iff in Hk. tauto. }
     rewrite used_cons. change (scount D (a :: b :: t)) with ((if mem_edge (a, b) D then 1 else 0) + scount D (b :: t))%nat.
-    pose proof (wh_fs_le g' fs Hfs Hacyc a (key_core a Hka Hna)) as Hfa.
+    pose proof (wh_fs_le g' fs Hacyc a (key_core a Hka Hna)) as Hfa.
     pose proof (wh_le_max g' fs b (key_core b Hkb Hnb)) as Hbm.
     destruct (mem_edge (a, b) D) eqn:Hd.
     + rewrite Nat2Z.inj_add. change (Z.of_nat 1) with 1. nia.
-    + pose proof (wh_edge g' fs Hfs Hacyc closed_core a b (key_core a Hka Hna) (step_core a b Hab Hna Hnb Hd)) as He.
+    + pose proof (wh_edge g' fs Hacyc closed_core a b (key_core a Hka Hna) (step_core a b Hab Hna Hnb Hd)) as He.
       cbn [Nat.add]. lia.
 Qed.
 
@@ -420,7 +427,7 @@ Proof.
   intros t. induction t as [|b t IH]; intros a Hw Ha.
   - cbn [length last]. lia.
   - cbn [walk] in Hw. apply andb_true_iff in Hw. destruct Hw as [Hab Hw].
-    pose proof (wh_edge g' unit_cost Hu Hacyc closed_core a b Ha Hab) as He.
+    pose proof (wh_edge g' unit_cost Hacyc closed_core a b Ha Hab) as He.
     pose proof (closed_succ_key g' closed_core a b Hab) as Hb.
     specialize (IH b Hw Hb). unfold unit_cost at 1 in He.
     change (last (b :: t) a) with (match t with [] => b | _ => last t a end).
@@ -470,7 +477,7 @@ Proof.
                   walk (core g guards D) p = true).
   { intros p. induction p as [|x p IH]; intros Hw Hng Hsc; [reflexivity|].
     destruct p as [|y p]; [reflexivity|].
-    cbn [walk] in Hw |- *. apply andb_true_iff in Hw. destruct Hw as [Hxy Hw].
+    rewrite walk_cons2 in Hw |- *. apply andb_true_iff in Hw. destruct Hw as [Hxy Hw].
     cbn [noguard forallb] in Hng. apply andb_true_iff in Hng. destruct Hng as [Hx Hng].
     change (scount D (x :: y :: p)) with ((if mem_edge (x, y) D then 1 else 0) + scount D (y :: p))%nat in Hsc.
     destruct (mem_edge (x, y) D) eqn:Hd; [cbn in Hsc; discriminate|]. cbn [Nat.add] in Hsc.
@@ -552,7 +559,7 @@ Proof.
   assert (Hone : forall n, mem n (keys g) = true -> wh g fs n <= M * wh g unit_cost n /\ 0 <= wh g unit_cost n).
   { intros n Hn. pose proof (acyclic_some g fs Hac n Hn) as H1.
     pose proof (acyclic_some g unit_cost Hac n Hn) as H2.
-    destruct (wheight_le_M g fs M _ _ _ _ Hfs H1 H2). tauto. }
+    destruct (wheight_le_M g fs M Hfs _ _ _ _ H1 H2). tauto. }
   unfold max_wheight. revert Hone. generalize (keys g) as ks. intros ks. induction ks as [|k ks IH]; intros Hone.
   - cbn. lia.
   - cbn [map fold_right].
